@@ -166,7 +166,9 @@ def run(ctx):
             if bad:
                 ctx.ob('R08.5', 'no spawn / background timer in the managed pool', False, ctx.where(b, blk.term.line), '/'.join(bad), construct='spawn:' + b.name)
             if any(n_ == 'deadpool_runtime::Runtime::timeout' for n_ in names):
-                ok = at is not None and b.path == at.path
+                # (a deadline awaited inside get() itself - the slot wait written out next to the wrapper - is no more background
+                # work than the wrapper is)
+                ok = (at is not None and b.path == at.path) or (b.path in set(r.GETTER) and b.is_coroutine)
                 ctx.ob('R08.5', 'timers only inside apply_timeout on the getter path', ok, ctx.where(b, blk.term.line), '', construct='timer:' + b.name)
     ctx.ob('R08.5', 'no spawn call found among all resolved callees', True, '', '%d calls scanned' % n_calls, construct='spawn:none', sites=[str(n_calls)])
     ctx.count('calls_scanned', n_calls)
